@@ -1,24 +1,29 @@
 _A = ['op_literal', 'op_drop', 'op_drop_n', 'op_dup', 'op_loop', 'op_jump_if_false', 'op_jump', 'op_negate', 'op_not',
       'op_add', 'op_sub', 'op_mul', 'op_div', 'op_and', 'op_or', 'op_less', 'op_less_equal', 'op_greater', 'op_greater_equal',
       'op_equal', 'op_not_equal', 'op_constant', 'op_constant_long', 'op_send', 'op_receive',
-      'op_push_handler', 'op_pop_handler', 'op_check_handler', 'op_continue_unwind', 'op_get_error', 'op_raise']
+      'op_push_handler', 'op_pop_handler', 'op_check_handler', 'op_continue_unwind', 'op_get_error', 'op_raise',
+      'op_invoke', 'invoke', 'op_super_invoke', 'op_get_super', 'bind_method', 'call_method', 'invoke_from_class',
+      'op_get_prop_by_name', 'op_set_prop_by_name', 'op_get_prop', 'op_set_prop']
 
 UNIT = dict(
   name='ops',
-  properties=['C01', 'C16', 'C06', 'C07', 'C04'],
+  properties=['C01', 'C16', 'C06', 'C07', 'C04', 'C03', 'C13'],
   shared=[],
   items=[
     ('laythe_core/src/object/mod.rs', ['enum ObjectKind']),
     ('laythe_core/src/utils.rs', ['fn is_falsey']),
     ('laythe_vm/src/vm/mod.rs', ['enum ExecutionSignal']),
     ('laythe_core/src/object/channel/mod.rs', ['enum SendResult', 'enum ReceiveResult']),
+    ('laythe_vm/src/cache.rs', ['struct PropertyCache', 'struct InvokeCache', 'struct InlineCache',
+                                ('impl InlineCache', ['get_property_cache', 'set_property_cache', 'clear_property_cache', 'get_invoke_cache',
+                                                      'set_invoke_cache', 'clear_invoke_cache', 'set_property', 'set_invoke'])]),
     ('laythe_vm/src/vm/ops.rs', [('impl Vm', _A)]),
   ],
   rewrites=[
     ('R11', 'enum ObjectKind', dict(drop=['Debug', 'Hash'], add=['Structural'])),
     ('R11', 'enum ExecutionSignal', dict(drop=['Debug'], add=['Structural'])),
     ('R7', 'enum ExecutionSignal', dict(pat='enum ExecutionSignal', rep='pub enum ExecutionSignal', count=1)),
-    ('R7', 'Vm::*', dict(pat='pub(super) unsafe fn', rep='pub unsafe fn', count=1)),
+    ('R7', 'Vm::*', dict(pat='pub(super) unsafe fn', rep='pub unsafe fn', optional=True)),
     ('R11', 'enum SendResult', dict(drop=['Debug', 'PartialEq', 'Eq', 'Clone'])),
     ('R11', 'enum ReceiveResult', dict(drop=['Debug', 'PartialEq', 'Eq', 'Clone'])),
     ('R6', 'enum SendResult', dict(pat='Option<Ref<ChannelWaiter>>', rep='Option<WaiterRef>', count=2)),
@@ -32,6 +37,34 @@ UNIT = dict(
     fiber.push_exception_handler(self, offset, slot_depth);''', rep='''let offset = self.ip_offset() + jump;
     self.fiber.push_exception_handler(offset, slot_depth);''', count=1)),
     ('R7', 'Vm::op_pop_handler', dict(pat='pub(super) unsafe fn', rep='pub unsafe fn', optional=True)),
+    # ---- cache.rs (C13) ----
+    ('R7f', 'struct PropertyCache'), ('R7f', 'struct InvokeCache'), ('R7f', 'struct InlineCache'),
+    ('R7', 'struct PropertyCache', dict(pat='struct PropertyCache', rep='pub struct PropertyCache', count=1)),
+    ('R7', 'struct InvokeCache', dict(pat='struct InvokeCache', rep='pub struct InvokeCache', count=1)),
+    ('R11', 'struct PropertyCache', dict(drop=['Debug', 'Clone'])), ('R11', 'struct InvokeCache', dict(drop=['Debug', 'Clone'])), ('R11', 'struct InlineCache', dict(drop=['Debug'])),
+    ('R6', 'struct PropertyCache', dict(pat='ObjRef<Class>', rep='ClassRef', count=1)),
+    ('R6', 'struct InvokeCache', dict(pat='ObjRef<Class>', rep='ClassRef', count=1)),
+    ('R6', 'InlineCache::*', dict(pat='ObjRef<Class>', rep='ClassRef', optional=True)),
+    # unchecked indexing -> checked indexing: the bound becomes a proof obligation (it is the debug_assert! above it)
+    ('R6', 'InlineCache::get_property_cache', dict(pat='unsafe { self.property.get_unchecked(inline_slot) }', rep='&self.property[inline_slot]', count=1)),
+    ('R6', 'InlineCache::get_invoke_cache', dict(pat='unsafe { self.invoke.get_unchecked(inline_slot) }', rep='&self.invoke[inline_slot]', count=1)),
+    ('R6', 'InlineCache::set_property', dict(pat='unsafe { *self.property.get_unchecked_mut(inline_slot) = value };', rep='self.property[inline_slot] = value;', count=1)),
+    ('R6', 'InlineCache::set_invoke', dict(pat='unsafe { *self.invoke.get_unchecked_mut(inline_slot) = value };', rep='self.invoke[inline_slot] = value;', count=1)),
+    ('R14', 'InlineCache::get_property_cache', dict(pat='cache.class == class', rep='verif_class_eq(cache.class, class)', count=1)),
+    ('R14', 'InlineCache::get_invoke_cache', dict(pat='cache.class == class', rep='verif_class_eq(cache.class, class)', count=1)),
+    # ---- property / invoke handlers (C03, C13) ----
+    ('R8', 'Vm::*'),
+    # R9: the per-module cache lookup `self.inline_cache()[_mut]()` is the field `self.cache` of the model (A-slot)
+    ('R9', 'Vm::*', dict(pat=r'self\s*\.inline_cache(?:_mut)?\(\)', rep='self.cache', regex=True, optional=True)),
+    ('R9', 'Vm::*', dict(pat=r'let cache = self\.cache;\s*cache\.', rep='self.cache.', regex=True, optional=True)),
+    # R9: instances are GC pointers into the heap the interpreter owns
+    ('R9', 'Vm::*', dict(pat=r'instance\[([^\]]+)\] = value;', rep=r'self.heap_set(instance, \1, value);', regex=True, optional=True)),
+    ('R9', 'Vm::*', dict(pat=r'instance\[([^\]]+)\]', rep=r'self.heap_get(instance, \1)', regex=True, optional=True)),
+    ('R9', 'Vm::*', dict(pat=r'instance\.get_field\((\w+)\)', rep=r'self.heap_field(instance, \1)', regex=True, optional=True)),
+    ('R9', 'Vm::*', dict(pat=r'\*field\b', rep='field', regex=True, optional=True)),
+    ('R6', 'Vm::*', dict(pat='ObjRef<Class>', rep='ClassRef', optional=True)),
+    ('R6', 'Vm::*', dict(pat='ObjRef<Method>', rep='MethodRef', optional=True)),
+    ('R7', 'Vm::*', dict(pat=r'^(\s*(?:///[^\n]*\n\s*)*)unsafe fn', rep=r'\1pub unsafe fn', regex=True, optional=True)),
     # R4: Option::or_else with a closure that captures &mut self
     ('R4', 'Vm::op_send', dict(pat=r'(\w+)\.or_else\(\|\|\s*self\.fiber\.get_runnable\(\)\)', rep=r'(match \1 { Some(verif_w) => Some(verif_w), None => self.fiber.get_runnable() })', regex=True, optional=True)),
     ('R4', 'Vm::op_receive', dict(pat=r'(\w+)\.or_else\(\|\|\s*self\.fiber\.get_runnable\(\)\)', rep=r'(match \1 { Some(verif_w) => Some(verif_w), None => self.fiber.get_runnable() })', regex=True, optional=True)),
